@@ -178,11 +178,11 @@ Proof.
   rewrite !Nat2Z.id. rewrite tget_grow, Hn. eexists; reflexivity.
 Qed.
 
-(* the reference semantics: negative fds raise as well *)
+(* the reference semantics: negative fds (other than -1, which means close) raise as well *)
 Lemma spec_negative_fd_raises :
   forall objs x r,
     (exists dz, eval_dst r = Some dz /\ (dz < 0)%Z)
-    \/ (exists dz z, eval_dst r = Some dz /\ (0 <= dz)%Z /\ r_src r = SFd (FdNum z) /\ (z < 0)%Z) ->
+    \/ (exists dz z, eval_dst r = Some dz /\ (0 <= dz)%Z /\ r_src r = SFd (FdNum z) /\ (z < -1)%Z) ->
     exists x', exec_redir Spec objs x r = RExc EInvalidFD x'.
 Proof.
   intros objs x r [[dz [Hd Hl]]|[dz [z [Hd [Hge [Hs Hl]]]]]]; unfold exec_redir; rewrite Hd.
@@ -190,7 +190,8 @@ Proof.
   - assert (E : (dz <? 0)%Z = false) by lia. rewrite E.
     destruct (release Spec x (Z.to_nat dz)) as [[s1 F2] df].
     unfold eval_src. rewrite Hs.
-    assert (E2 : (z <? 0)%Z = true) by lia. rewrite E2. eexists; reflexivity.
+    assert (E2 : (z <? 0)%Z = true) by lia. rewrite E2.
+    assert (E3 : (z =? -1)%Z = false) by lia. rewrite E3. eexists; reflexivity.
 Qed.
 
 Lemma spec_src_never_crashes : forall objs T s r, eval_src Spec objs T s r <> SCrash.
@@ -199,8 +200,9 @@ Proof.
   destruct (r_src r) as [pth|f| |k|]; try discriminate.
   - destruct (open_file s pth (makeFlag (r_mode r))) as [[i s2]|]; discriminate.
   - destruct f as [z|n|]; try discriminate.
-    + destruct (z <? 0)%Z; [discriminate|]. destruct (tget _ _); discriminate.
-    + destruct (Z.of_nat n <? 0)%Z; [discriminate|]. destruct (tget _ _); discriminate.
+    + destruct (z <? 0)%Z; [destruct (z =? -1)%Z; discriminate|]. destruct (tget _ _); discriminate.
+    + destruct (Z.of_nat n <? 0)%Z; [destruct (Z.of_nat n =? -1)%Z; discriminate|].
+      destruct (tget _ _); discriminate.
   - destruct (nth_error objs k) as [[h|rd wr]|]; try discriminate.
     destruct (r_mode r); try discriminate; [destruct rd|destruct wr]; discriminate.
 Qed.
@@ -219,10 +221,12 @@ Qed.
 Definition x0 : fstate :=
   mkFs (init_table []) [] (mkSt [] [] [] [[]; []] [[]; []] led0 false) [].
 
-Lemma minus_one_src_fd_closes :
-  exists x', exec_redir Impl [] x0 (mkRedir None MWrite (SFd (FdNum (-1)))) = ROk x'
-             /\ tget (fs_T x') 1 = Some closed_port.
-Proof. eexists; split; reflexivity. Qed.
+(* the source fd -1 is the same thing as "-": n>&-1 behaves exactly like n>&- *)
+Lemma minus_one_src_is_close :
+  forall fl objs x dst md,
+    exec_redir fl objs x (mkRedir dst md (SFd (FdNum (-1)))) =
+    exec_redir fl objs x (mkRedir dst md SClose).
+Proof. intros. reflexivity. Qed.
 
 (* every invalid fd raises the invalid-fd exception in the code as it is now:
    a negative destination, a source below -1, a source naming an absent port *)
